@@ -9,6 +9,7 @@ import Gzx.Driver.C06Det
 import Gzx.Driver.C06Row128
 import Gzx.Driver.C06Rows
 import Gzx.Driver.C07
+import Gzx.Driver.C07QREnc
 import Gzx.Driver.C08
 import Gzx.Driver.C09
 import Gzx.Driver.C10
@@ -40,6 +41,7 @@ def dispatch (line : String) : String :=
   | "row128" :: rest => C06Row128.handle rest
   | "c06rows" :: rest => C06Rows.handle rest
   | "c07" :: rest => C07.handle rest
+  | "c07m" :: rest => C07QREnc.handle rest
   | "c08" :: rest => C08.handle rest
   | "c09" :: rest => C09.handle rest
   | "c10" :: rest => C10.handle rest
